@@ -103,7 +103,8 @@ def encode(spec):
     d = lib.show_list(['%s:%d:%s' % (n, ln, 'u' if un else 'f') for n, ln, un in spec['dims']])
     vs = []
     for v in spec['vars']:
-        vs.append('%s|%s|%s|%s|%s' % (v['name'], '.'.join(v['dims']) or '-', 'm' if v['masked'] else 'p',
+        vs.append('%s|%s|%s|%s|%s' % (v['name'], '.'.join(v['dims']) or '-',
+                                     ('m' if v['masked'] else 'p') + ('i' if v['dtype'] == 'i' else ''),
                                      '.'.join(v['attrs']) or '-', _cells(v['data'])))
     return d, (';'.join(vs) or '-'), ('.'.join(spec['attrs']) or '-')
 
@@ -156,6 +157,35 @@ def diff_obs(model_text, impl_text, ignore_unlim=False):
         for fld in ('dims', 'shape', 'cells', 'flag', 'attrs'):
             if a['vars'][k][fld] != b['vars'][k][fld]:
                 return 'variable %s %s: model=%s impl=%s' % (k, fld, a['vars'][k][fld][:200], b['vars'][k][fld][:200])
+    if a['attrs'] != b['attrs']:
+        return 'file attributes model=%s impl=%s' % (a['attrs'], b['attrs'])
+    return None
+
+
+def diff_obs_numeric(model_text, impl_text, rel=1e-12):
+    """like diff_obs, but cells are compared numerically within `rel` (float64 results of a few
+    operations on integers below 1e4 against the exact rational)"""
+    a, b = parse_obs(model_text), parse_obs(impl_text)
+    if a['dims'] != b['dims']:
+        return 'dimensions model=%s impl=%s' % (a['dims'], b['dims'])
+    if sorted(a['vars']) != sorted(b['vars']):
+        return 'variables model=%s impl=%s' % (sorted(a['vars']), sorted(b['vars']))
+    for k in a['vars']:
+        for fld in ('dims', 'shape', 'attrs'):
+            if a['vars'][k][fld] != b['vars'][k][fld]:
+                return 'variable %s %s: model=%s impl=%s' % (k, fld, a['vars'][k][fld][:200], b['vars'][k][fld][:200])
+        ca = a['vars'][k]['cells'].split(',') if a['vars'][k]['cells'] != '-' else []
+        cb = b['vars'][k]['cells'].split(',') if b['vars'][k]['cells'] != '-' else []
+        if len(ca) != len(cb):
+            return 'variable %s has %d cells, model %d' % (k, len(cb), len(ca))
+        for i, (x, y) in enumerate(zip(ca, cb)):
+            if (x == '_') != (y == '_'):
+                return 'variable %s cell %d mask: model=%s impl=%s' % (k, i, x, y)
+            if x == '_':
+                continue
+            fx, fy = Fraction(x), Fraction(y)
+            if abs(fx - fy) > rel * max(abs(fx), 1):
+                return 'variable %s cell %d: model=%s impl=%s' % (k, i, x, y)
     if a['attrs'] != b['attrs']:
         return 'file attributes model=%s impl=%s' % (a['attrs'], b['attrs'])
     return None
